@@ -869,6 +869,42 @@ def run_impossible(max_len):
                                 fail(f"Python front end | {cname} | a refused batch leaves neither the symbols coded before the refusal nor the coder as it was", f"{mname}: batch {batch}: decodes {got}, expected {done}")
                         except BaseException as e:
                             fail(f"Python front end | {cname} | batch with an impossible symbol: undocumented failure", f"{mname}: {batch}: {type(e).__name__}: {str(e)[:100]}")
+        # refused batches on a coder that ALREADY HOLDS DATA, with enough 23-bit symbols in the batch to emit words before the
+        # refusal: afterwards the coder holds the earlier data plus either nothing or exactly the part of the batch that was
+        # coded before the refusal - and the earlier data still decodes
+        skew = M.Categorical(np.array([1e-7, 1.0 - 2e-7, 1e-7]), perfect=False)
+        counters["py_impossible_batches_on_used_coders"] = 0
+        for cname, make, enc, state, dec in coders():
+            for prefix in ([0, 2], [2, 0, 2, 0, 1, 2]):
+                for k_before in (0, 1, 3, 5):
+                    for k_after in (0, 1, 3, 5):
+                        n += 1; counters["py_impossible_batches_on_used_coders"] += 1
+                        before_part = [0, 2, 0, 2, 2][:k_before]; after_part = [2, 0, 2, 0, 0][:k_after]
+                        batch = before_part + [7] + after_part
+                        try:
+                            c = make(); enc(c, np.array(prefix, dtype=np.int32), skew)
+                            only_prefix = state(c)
+                            try:
+                                enc(c, np.array(batch, dtype=np.int32), skew)
+                                fail(f"Python front end | {cname} | batch with an impossible symbol is accepted", f"skewed table: {batch}")
+                                continue
+                            except KeyError:
+                                pass
+                            done = after_part if cname != "RangeEncoder" else before_part   # coded before the refusal
+                            ref = make(); enc(ref, np.array(prefix, dtype=np.int32), skew)
+                            if len(done):
+                                enc(ref, np.array(done, dtype=np.int32), skew)
+                            st = state(c)
+                            if st != only_prefix and st != state(ref):
+                                fail(f"Python front end | {cname} | a refused batch on a coder that already holds data leaves neither the earlier data alone nor the earlier data plus the part coded before the refusal", f"prefix {prefix}, batch {batch}")
+                            elif dec is not None:
+                                kept = done if st == state(ref) and st != only_prefix else []
+                                want = (kept + prefix) if cname == "AnsCoder" else (prefix + kept)
+                                got = dec(c, skew, len(want)) if len(want) else []
+                                if got != want:
+                                    fail(f"Python front end | {cname} | data encoded before a refused batch no longer decodes", f"prefix {prefix}, batch {batch}: {got} instead of {want}")
+                        except BaseException as e:
+                            fail(f"Python front end | {cname} | batch with an impossible symbol on a used coder: undocumented failure", f"prefix {prefix}, batch {batch}: {type(e).__name__}: {str(e)[:100]}")
     return n, failures, counters
 
 
